@@ -173,16 +173,18 @@ func (s *LinearState) Add(ctx *Context, id string, x Map) (string, error) {
 		return id, err
 	}
 
-	pair := &Pair{[]byte(id), bs}
-	if err = s.store.Add(ctx, s.Name, pair); err != nil {
-		return id, err
-	}
-
+	// The hook can reject the fact: ask it before anything is
+	// written, so that a rejected fact leaves nothing in storage.
 	if s.addHook != nil {
 		if err := s.addHook(ctx, s, id, m, ctx.GetLoc().loading); err != nil {
 			Log(ERROR, ctx, "LinearState.Add", "state", s.Name, "error", err, "when", "addHook", "id", id)
 			return "", err
 		}
+	}
+
+	pair := &Pair{[]byte(id), bs}
+	if err = s.store.Add(ctx, s.Name, pair); err != nil {
+		return id, err
 	}
 
 	// Maybe protect the store (above), too.
